@@ -21,15 +21,19 @@ Capable(p, c) == /\ (p \in {"json", "wsjson"} => c \notin {"p", "t"})
                  /\ (p = "thriftstruct" => c = "t")
 PipeOK(p, pp) == /\ (p \in {"thriftstruct", "wsjson"} => pp = "")
                  /\ (p = "wspb" => pp \in {"", "g"})
-Profiles == { [sessions |-> 1, gor |-> 1,  size |-> 0,     hold |-> 0, barrier |-> FALSE],
-              [sessions |-> 2, gor |-> 4,  size |-> 255,   hold |-> 3, barrier |-> FALSE],
-              [sessions |-> 1, gor |-> 16, size |-> 4096,  hold |-> 3, barrier |-> FALSE],
-              [sessions |-> 3, gor |-> 4,  size |-> 70000, hold |-> 0, barrier |-> FALSE],
-              [sessions |-> 2, gor |-> 4,  size |-> 256,   hold |-> 3, barrier |-> FALSE],
-              [sessions |-> 1, gor |-> 4,  size |-> 1,     hold |-> 3, barrier |-> FALSE],
+Profiles == { [sessions |-> 1, gor |-> 1,  size |-> 0,     hold |-> 0, barrier |-> FALSE, mixed |-> FALSE],
+              [sessions |-> 2, gor |-> 4,  size |-> 255,   hold |-> 3, barrier |-> FALSE, mixed |-> FALSE],
+              [sessions |-> 1, gor |-> 16, size |-> 4096,  hold |-> 3, barrier |-> FALSE, mixed |-> FALSE],
+              [sessions |-> 3, gor |-> 4,  size |-> 70000, hold |-> 0, barrier |-> FALSE, mixed |-> FALSE],
+              [sessions |-> 2, gor |-> 4,  size |-> 256,   hold |-> 3, barrier |-> FALSE, mixed |-> FALSE],
+              [sessions |-> 1, gor |-> 4,  size |-> 1,     hold |-> 3, barrier |-> FALSE, mixed |-> FALSE],
               \* all goroutines of the session issue their next operation at the same instant (released from a barrier)
-              [sessions |-> 1, gor |-> 32, size |-> 16,    hold |-> 0, barrier |-> TRUE] }
-Cells == {c \in [proto : Protos, codec : Codecs, pipe : Pipes, prof : Profiles] : Capable(c.proto, c.codec) /\ PipeOK(c.proto, c.pipe)}
+              [sessions |-> 1, gor |-> 32, size |-> 16,    hold |-> 0, barrier |-> TRUE, mixed |-> FALSE],
+              \* mixed outcomes: among the concurrent calls some handlers return a status of their own and some routes do not exist
+              [sessions |-> 2, gor |-> 8,  size |-> 64,    hold |-> 1, barrier |-> FALSE, mixed |-> TRUE] }
+\* the websocket protobuf sub-protocol cannot carry a status (known finding of C05): no failing calls over it
+MixedOK(p, prof) == prof.mixed => p # "wspb"
+Cells == {c \in [proto : Protos, codec : Codecs, pipe : Pipes, prof : Profiles] : Capable(c.proto, c.codec) /\ PipeOK(c.proto, c.pipe) /\ MixedOK(c.proto, c.prof)}
 
 VARIABLES cell, done
 vars == <<cell, done>>
@@ -40,6 +44,6 @@ Spec == Init /\ [][Run]_vars
 CapOK == Capable(cell.proto, cell.codec) /\ PipeOK(cell.proto, cell.pipe)
 Emit == Export = "" \/
         Serialize(ToJson([proto |-> cell.proto, codec |-> cell.codec, pipe |-> cell.pipe, sessions |-> cell.prof.sessions,
-                          gor |-> cell.prof.gor, size |-> cell.prof.size, hold |-> cell.prof.hold, barrier |-> cell.prof.barrier]) \o "\n", Export,
+                          gor |-> cell.prof.gor, size |-> cell.prof.size, hold |-> cell.prof.hold, barrier |-> cell.prof.barrier, mixed |-> cell.prof.mixed]) \o "\n", Export,
                   [format |-> "TXT", charset |-> "UTF-8", openOptions |-> <<"WRITE", "CREATE", "APPEND">>]).exitValue = 0
 =============================================================================
